@@ -1,8 +1,8 @@
 SPECIFICATION Spec
-CONSTANTS Hides = TRUE
+CONSTANTS Hides = FALSE
   NestAll = FALSE
-  FalsyAll = TRUE
-  Tri = {"run", "fill", "compute", "request", "fill_into", "m"}
+  FalsyAll = FALSE
+  Tri = {"run"}
 INVARIANT AsDocumented
 INVARIANT NamedNeverCasts
 INVARIANT FillComputeBinds
@@ -20,6 +20,4 @@ INVARIANT SameKindAccepted
 INVARIANT CastsAsDocumented
 INVARIANT OuterCallsBound
 INVARIANT RepeatedUseOuter
-INVARIANT Emitted
-INVARIANT EmittedNest
 CHECK_DEADLOCK FALSE
